@@ -1,11 +1,26 @@
 #!/usr/bin/env python3
 """Copies the results of tools/sweep.py into /verif/sweep/ and writes /verif/sweep/REPORT.md."""
 import json, os, shutil, sys
-src = sys.argv[1] if len(sys.argv) > 1 else "/tmp/sweep1"
+srcs = sys.argv[1:] or ["/tmp/sweep1"]
 dst = "/verif/sweep"
 os.makedirs(os.path.join(dst, "survivors"), exist_ok=True)
-g = json.load(open(os.path.join(src, "gen.json")))
-j = json.load(open(os.path.join(src, "judge.json")))
+g = {"candidates": 0, "tried": 0, "build_fail": 0, "killed": 0, "survived": 0, "list": []}
+j, where = {}, {}
+for src in srcs:
+    g1 = json.load(open(os.path.join(src, "gen.json")))
+    g["candidates"] = max(g["candidates"], g1["candidates"])
+    for k in ("tried", "build_fail", "killed", "survived"):
+        g[k] += g1[k]
+    for e in g1["list"]:
+        if e["id"] in where:
+            g["tried"] -= 1; g["survived"] -= 1  # drawn twice
+            continue
+        where[e["id"]] = src
+        g["list"].append(e)
+    jp = os.path.join(src, "judge.json")
+    if os.path.exists(jp):
+        for k, v in json.load(open(jp)).items():
+            j.setdefault(k, v)
 WHY = {
  "v2_diff_write-121-14-3": "equivalent: a void addition is the only added value of its hunk, so stopping after it skips nothing",
  "v2_diff_write-256-14-4": "equivalent: same as above in RenderPatch",
@@ -43,6 +58,27 @@ WHY = {
  "v2_list-174-15-3": "equivalent: the loop ends at the next test either way",
  "v2_jd_main-290-13-14": "equivalent: the flag is ignored on the error path",
  "v2_list-340-12-10": "equivalent: dead arm of sameContainerType",
+ "v2_list-445-14-4": "equivalent: a void after-context line is the last one, so leaving the loop skips nothing",
+ "lib_list-222-5-12": "outside the properties: only changes (to a panic) what the v1 patch does with a hunk that does not match the document; C17/C18 quantify over jd's own diffs and C13's anchors are in v2",
+ "lib_object-222-16-5": "equivalent for the properties: a multi-valued hunk addressed through a plain key is an error with and without the mutation",
+ "v2_object-221-16-5": "equivalent for the properties: a multi-valued hunk addressed through a plain key is an error with and without the mutation",
+ "v2_set-196-5-20": "equivalent: dead base case of jsonSet.patch",
+ "lib_path-27-21-29": "equivalent: dead branch of prependMetadataMerge",
+ "lib_diff_read-135-10-23": "equivalent for the properties: only the line number in an error message changes",
+ "v2_multiset-172-5-42": "equivalent: dead base case of jsonMultiset.patch",
+ "v2_options-140-1-8": "outside the properties: JSON (un)marshalling of Option values",
+ "v2_set-209-5-20": "outside the properties: a path that ENDS in a keyed member ({\"id\":1} last) is never emitted; the clean tree rejects it, the mutant replaces the member, and no property says which",
+ "v2_list-397-17-5": "GAP, closed: a hunk at index -1 that removes one value was applied as a no-op, so the JSON Patch [test /-, remove /-] applied where RFC 6902 rejects it; C10 had no variation moving a pair to \"-\"; pair-at-dash added (re-judged: reported by C10)",
+ "v2_diff_read-621-21-10": "equivalent: the path handed to the leaf is a fresh slice already",
+ "v2_diff_read-332-14-3": "equivalent: a hunk read with an after-context test always ends in an index",
+ "v2_diff_read-488-6-85": "outside the subset C10 quantifies over: differs only where the first test is not next to the edit position",
+ "v2_diff_read-488-4-99": "outside the subset C10 quantifies over: differs only for a context test that names the edit position itself",
+ "v2_diff_read-479-5-99": "outside the subset C10 quantifies over: differs only for a context test that names the edit position itself",
+ "v2_object-221-7-49": "outside the properties: a hunk with several removed values addressed to an object (no {} or [] in the path) is never emitted; the clean tree rejects it, the mutant uses the first value",
+ "lib_patch_common-44-7-23": "outside the properties: as above, in v1",
+ "lib_set-182-5-42": "equivalent: dead base case of the v1 set patch",
+ "v2_jd_main-42-18-25": "GAP, closed: jd called with no argument at all crashed with a stack trace (os.Args[1]); C13's cli leg had no malformed argument lists; added (bare call, three files, unknown flag, ...: status 2 and no stack trace) (re-judged: reported by C13)",
+ "v2_jd_main-254-13-13": "equivalent: the flag is ignored on the error path",
  "v2_multiset-172-5-20": "equivalent: dead base case of jsonMultiset.patch",
  "lib_multiset-163-7-24": "equivalent: dead base case of the v1 multiset patch",
  "lib_multiset-163-5-42": "equivalent: dead base case of the v1 multiset patch",
@@ -62,7 +98,7 @@ for e in g["list"]:
     r = j.get(e["id"])
     if not r:
         continue
-    shutil.copyfile(os.path.join(src, "survivors", e["id"] + ".diff"), os.path.join(dst, "survivors", e["id"] + ".diff"))
+    shutil.copyfile(os.path.join(where[e["id"]], "survivors", e["id"] + ".diff"), os.path.join(dst, "survivors", e["id"] + ".diff"))
     kb = r.get("killed_by")
     if kb:
         killed += 1
